@@ -236,7 +236,7 @@ func genC31(rt *rapid.T) (dcase, []drun) {
 		c.groups = append(c.groups, grp{labels: c31LabelSets[k.ls], res: k.res})
 	}
 	sharedPool := rapid.IntRange(0, 4).Draw(rt, "sharedPool") == 0 // all groups draw from one pool
-	pools := map[int][]int{}                                      // label set -> ids
+	pools := map[int][]int{}                                       // label set -> ids
 	newID := func() int {
 		ms := uint64(rapid.IntRange(1, 40).Draw(rt, "ulidT"))
 		ent := uint64(rapid.IntRange(0, 3).Draw(rt, "ulidE"))
